@@ -46,18 +46,35 @@ def pipeline(harness_cmd, driver_cmd, save_to, timeout=3600, env=None):
     return hp.returncode, hp.stderr.decode(errors="replace")[-3000:], dp.returncode, dp.stdout.splitlines()
 
 
+_CASE_INDEX = {}
+
+
+def _case_index(path, start):
+    key = (path, start, os.path.getmtime(path), os.path.getsize(path))
+    if _CASE_INDEX.get("key") != key:
+        offs = []
+        pos = 0
+        pref = (start + " ").encode()
+        with open(path, "rb") as f:
+            for line in f:
+                if line.startswith(pref):
+                    offs.append(pos)
+                pos += len(line)
+        offs.append(pos)
+        _CASE_INDEX["key"] = key
+        _CASE_INDEX["offs"] = offs
+    return _CASE_INDEX["offs"]
+
+
 def extract_case(path, case_no, start="C"):
-    """Lines of the `case_no`-th case (1-based) in a harness output file."""
-    out, k = [], 0
-    with open(path) as f:
-        for line in f:
-            if line.startswith(start + " "):
-                k += 1
-                if k > case_no:
-                    break
-            if k == case_no:
-                out.append(line.rstrip("\n"))
-    return out
+    """Lines of the `case_no`-th case (1-based) in a harness output file (indexed once per file)."""
+    offs = _case_index(path, start)
+    if case_no < 1 or case_no >= len(offs):
+        return []
+    with open(path, "rb") as f:
+        f.seek(offs[case_no - 1])
+        data = f.read(offs[case_no] - offs[case_no - 1])
+    return data.decode(errors="replace").splitlines()
 
 
 def ddmin(header, ops, fails):
